@@ -292,6 +292,9 @@ impl Model {
 
     /// every file in the layer's env directories is `NAME.<known behaviour>`
     fn env_is_writer_shaped(&self, i: usize) -> bool {
+        if self.env_path_blocked(i) {
+            return false;
+        }
         let l = self.ldir(i);
         for d in ["env", "env.build", "env.launch"] {
             let dir = join(&l, d.as_bytes());
@@ -312,6 +315,14 @@ impl Model {
             }
         }
         true
+    }
+
+    /// Is one of env, env.build, env.launch present but not a directory (a stray file)?
+    fn env_path_blocked(&self, i: usize) -> bool {
+        let l = self.ldir(i);
+        ["env", "env.build", "env.launch"]
+            .iter()
+            .any(|d| self.snap.get(&join(&l, d.as_bytes())).is_some_and(|n| !n.is_dir()))
     }
 
     /// Does an env directory of the layer hold a symbolic link that leads nowhere (e.g. its
@@ -611,6 +622,8 @@ impl Model {
                     && !self.snap.get(&join(&e, to.as_bytes())).is_some_and(Node::is_dir)
             }
             Op::ChmodLayer { layer, .. } => self.dir_is_real_dir(*layer),
+            Op::ChmodToml { layer, .. } => self.snap.get(&self.ltoml(*layer)).is_some_and(Node::is_file),
+            Op::RewriteSource { idx, .. } => self.source(*idx).is_some(),
             Op::SbomLink { layer, format, .. } => {
                 *format < 3
                     && self.dir_is_real_dir(*layer)
@@ -693,6 +706,17 @@ impl Model {
                 let (types, _) = self.read_toml(*layer).unwrap_or((None, None));
                 self.write_toml(*layer, types, meta.table());
                 Expectation::simple(ExpResult::UnitOk)
+            }
+            Op::WriteEnv { layer, .. } if self.env_path_blocked(*layer) => {
+                // something that is not a directory sits where an env directory belongs
+                let mut e = Expectation::simple(ExpResult::ErrOther);
+                e.unconstrained = Some(*layer);
+                e
+            }
+            Op::EnvCycle { layer, .. } if self.env_path_blocked(*layer) && !self.env_has_dangling_link(*layer) => {
+                let mut e = Expectation::simple(ExpResult::ErrOther);
+                e.unconstrained = Some(*layer);
+                e
             }
             Op::WriteEnv { layer, env } if env_name_too_long(env) => {
                 // NAME.<behaviour> would exceed NAME_MAX: the write must fail (and report it)
@@ -832,14 +856,17 @@ impl Model {
                 }
                 Expectation::simple(ExpResult::NoCall)
             }
-            Op::TopSymlink { layer, abs } => {
+            Op::TopSymlink { layer, abs, sibling } => {
                 let l = self.ldir(*layer);
                 self.snap.remove_tree(&l);
-                let t = if *abs {
-                    LinkTarget::Abs(p("outside/target_dir"))
-                } else {
-                    LinkTarget::Rel(p("outside/target_dir"))
+                // another layer's directory (the lowest-numbered one that is a real directory),
+                // else the canary directory beside the layers directory
+                let other = (0..self.layers.len()).find(|o| *sibling && o != layer && self.dir_is_real_dir(*o));
+                let dest = match other {
+                    Some(o) => self.ldir(o),
+                    None => p("outside/target_dir"),
                 };
+                let t = if *abs { LinkTarget::Abs(dest) } else { LinkTarget::Rel(dest) };
                 let t = self.link_target_bytes(&l, &t);
                 self.snap.insert(l, Node::Symlink { target: t });
                 self.live.remove(layer);
@@ -872,6 +899,20 @@ impl Model {
             Op::ChmodLayer { layer, mode } => {
                 let d = self.ldir(*layer);
                 self.snap.insert(d, Node::Dir { mode: *mode });
+                Expectation::simple(ExpResult::NoCall)
+            }
+            Op::ChmodToml { layer, mode } => {
+                let t = self.ltoml(*layer);
+                if let Some(Node::File { data, .. }) = self.snap.get(&t).cloned() {
+                    self.snap.insert(t, Node::File { data, mode: *mode });
+                }
+                Expectation::simple(ExpResult::NoCall)
+            }
+            Op::RewriteSource { idx, data } => {
+                let path = format!("execd_src/p{idx}").into_bytes();
+                if let Some(Node::File { mode, .. }) = self.snap.get(&path).cloned() {
+                    self.snap.insert(path, Node::File { data: data.clone(), mode });
+                }
                 Expectation::simple(ExpResult::NoCall)
             }
             Op::SbomLink { layer, format, kind } => {
